@@ -533,6 +533,45 @@ class Gen:
         return out, strip(tree)
 
 
+def header_order_documents(rng, n):
+    """documents that exercise every ORDER in which the tables of a chain a, a.b, a.b.c (and arrays of
+    tables on the way) can be declared, each section with 0-3 plain key/values and unique comments;
+    returns (text, plain tree). Exact print-back is promised for all of them (no dotted keys)."""
+    import itertools
+    out = []
+    chains = [[("a",), ("a", "b"), ("a", "b", "c")], [("a",), ("a", "b")], [("x",), ("a", "b", "c"), ("a",), ("a", "b")], [("a", "b", "c", "d"), ("a", "b"), ("a",), ("q",)]]
+    perms = []
+    for ch in chains:
+        for pm in itertools.permutations(ch):
+            perms.append(pm)
+    for _ in range(n):
+        pm = rng.choice(perms)
+        omit = set(rng.sample(range(len(pm)), rng.choice([0, 0, 1]))) if len(pm) > 2 else set()
+        text = ""
+        tree = {}
+        cno = 0
+        if rng.random() < 0.5:
+            for j in range(rng.choice([1, 2, 3])):
+                cno += 1
+                text += f"r{j} = {j} # c{cno}\n"
+                tree[f"r{j}".encode()] = ("i", j)
+        for idx, path in enumerate(pm):
+            if idx in omit:
+                continue
+            cno += 1
+            text += rng.choice(["", "\n", f"# c{cno}\n"]) + "[" + ".".join(path) + "]" + rng.choice(["", f" # h{cno}"]) + "\n"
+            node = tree
+            for seg in path:
+                node = node.setdefault(seg.encode(), {})
+            for j in range(rng.choice([0, 1, 2, 3, 4])):
+                cno += 1
+                k = f"k{j}"
+                text += f"{k} = {cno}" + rng.choice(["", f"  # v{cno}"]) + "\n"
+                node[k.encode()] = ("i", cno)
+        out.append((text, tree))
+    return out
+
+
 def adjacent_dotted(kv_paths):
     """keys sharing a dotted prefix are adjacent within their section (so printing keeps the source order)"""
     by_sect = {}
